@@ -166,6 +166,17 @@ func c10Catalogue(r *Rich, thorough bool) []c10Case {
 			}
 		}
 	}
+	// the output switches together, on every writer that has not met them above
+	for _, q := range [][]string{{"-q", "--json"}, {"--json", "-q"}, {"-q", "-v", "--json"}, {"-q"}, {"-v", "--json"}} {
+		add("sequence(2)", core.R("", append(append([]string{}, q...), "sequence", r.ByState["todo"], r.ByState["canceled"])...))
+		add("sequence(3+)", core.R("", append(append([]string{}, q...), "sequence", r.ByState["todo"], r.ByState["canceled"], r.ByState["error"])...))
+		add("sequence-rm", core.R("", append(append([]string{}, q...), "sequence", "rm", r.ByState["doing"], r.Child)...))
+		add("new-task", core.R("", append(append([]string{}, q...), "new", "task")...).In(`{"title":"quiet one","claim":"ag"}`))
+		add("new-epic", core.R("", append(append([]string{}, q...), "new", "epic", "--title", "quiet epic")...))
+		add("plan", core.R("", append(append([]string{}, q...), "plan")...).In(`{"title":"P","tasks":[{"title":"a"},{"title":"b","after":["a"]}]}`))
+		add("prune", core.R("", append(append([]string{}, q...), "prune", "--yes")...))
+		add("compact", core.R("", append(append([]string{}, q...), "compact")...))
+	}
 	add("sequence-rm", core.R("", "--json", "sequence", "rm", pool[0]))
 	add("sequence-rm", core.R("", "--json", "sequence", "rm", pool[0], pool[1], pool[2]))
 	// 4-chains with a bad link at each position (good ids: todo, canceled, error, blocked)
